@@ -219,22 +219,31 @@ def strip_comments(txt):
 
 
 # ---------------------------------------------------------------- Go side
-def build_harness():
+def build_harness(pid):
+    """Builds build/implrun_<pid>: a main that links only this property's runner package
+    (harness/props/<pid lower>), against the current /repo with -tags verif."""
     with Lock("go"):
         h = os.path.join(ROOT, "harness")
-        run([os.path.join(ROOT, "bin", "goimports_gen")], 60)
+        d = os.path.join(h, "cmd", "impl_" + pid.lower())
+        os.makedirs(d, exist_ok=True)
+        src = 'package main\n\nimport (\n\t_ "verifharness/props/%s"\n\t"verifharness/run"\n)\n\nfunc main() { run.Main() }\n' % pid.lower()
+        mp = os.path.join(d, "main.go")
+        if not os.path.exists(mp) or open(mp).read() != src:
+            open(mp, "w").write(src)
         try:
             shutil.copy(os.path.join(REPO, "go.sum"), os.path.join(h, "go.sum"))
         except OSError:
             pass
-        return run(["go", "build", "-tags", "verif", "-o", os.path.join(BUILD, "implrun"), "."], 900, cwd=h, env=GOENV)
+        tags = "verif"
+        return run(["go", "build", "-tags", tags, "-o", os.path.join(BUILD, "implrun_" + pid), "./cmd/impl_" + pid.lower()],
+                   1200, cwd=h, env=GOENV)
 
 
 def run_impl(pid, seed, n, tier, outdir, timeout, mode="gen", replay=None):
     if os.path.exists(outdir):
         shutil.rmtree(outdir)
     os.makedirs(outdir)
-    cmd = [os.path.join(BUILD, "implrun"), pid, "-seed", str(seed), "-n", str(n), "-tier", tier,
+    cmd = [os.path.join(BUILD, "implrun_" + pid), pid, "-seed", str(seed), "-n", str(n), "-tier", tier,
            "-out", outdir, "-mode", mode, "-corpus", os.path.join(ROOT, "corpus", pid)]
     if replay:
         cmd += ["-replay", replay]
@@ -376,8 +385,16 @@ def main(argv=None):
         b["failed"] = "unexpected axioms: %s" % json.dumps(bad_axioms)[:600]
         discharged = obligations - len(bad_axioms)
 
+    # model drift: anchored Go functions whose normalised AST changed since the pinned commit
+    drift, fps = fingerprint_drift(cfg)
+    if drift:
+        n *= cfg["search_factor"]
+        notes.append("model drift: anchored functions changed since the pinned commit: %s; sample multiplied by %d" % (
+            ", ".join(drift), cfg["search_factor"]))
+        log("[%s] drift in %s" % (pid, drift))
+
     # 2. implementation
-    rc, out = build_harness()
+    rc, out = build_harness(pid)
     rounds = []
     broken_corr = None
     if rc != 0:
@@ -477,6 +494,7 @@ def main(argv=None):
             "oracle_failures": sum(len(r["oracle"]) for r in rounds),
             "model_impl_mismatches": sum(len(r["mismatch"]) for r in rounds),
             "known_findings_seen": sorted(seen_known),
+            "anchor_fingerprints": fps, "anchors_changed": drift,
             "notes": notes,
         },
         "assumptions": cfg["assumptions"],
@@ -491,6 +509,21 @@ def main(argv=None):
         print(l)
     print("%s %s: %d theorems, %d cases, exit %d, %.0fs" % (pid, tier, obligations, total_cases, exit_code, time.time() - t0))
     return exit_code
+
+
+def fingerprint_drift(cfg):
+    """Compares the translator's function fingerprints with the committed baseline."""
+    try:
+        now = json.load(open(os.path.join(BUILD, "fingerprints.json")))
+        base = json.load(open(os.path.join(ROOT, "fingerprints.base.json")))
+    except (OSError, ValueError):
+        return [], {}
+    fps, drift = {}, []
+    for a in cfg.get("anchors", []):
+        fps[a] = now.get(a, "absent")
+        if now.get(a) != base.get(a):
+            drift.append(a)
+    return drift, fps
 
 
 def desc_len(c):
